@@ -3,6 +3,7 @@ package checks
 import (
 	"encoding/json"
 	"fmt"
+	"os"
 	"time"
 
 	"github.com/magisterquis/curlrevshell/verifx/bworld"
@@ -119,6 +120,11 @@ func c03(r *ev.Result, tier string) {
 		c03PrefixStress(r, 1500)
 	}
 	c03ZeroReads(r)
+	{
+		base := ev.Scratch("c03bin-")
+		c03RealColor(r, base)
+		os.RemoveAll(base)
+	}
 	quietSpell(r, "C03")
 	/* The terminal seam: the real Shell on a pty shows exactly what the
 	operator channel carries, in order, however far behind it is. */
@@ -129,6 +135,9 @@ func c03(r *ev.Result, tier string) {
 	runTermSeam(r, "c03", maxLen, "c03term")
 	/* The operator's locale: chunks that end inside a multi-byte character
 	are output like any other, also when the locale says UTF-8. */
+	for _, env := range [][]string{{"NO_COLOR=1"}, {"NO_COLOR", "TERM=dumb"}, {"NO_COLOR", "TERM=xterm-256color"}} {
+		runTermSeamEnv(r, "c03color", 0, "c03term", env)
+	}
 	for _, loc := range [][]string{{"LANG=en_US.UTF-8"}, {"LC_ALL=C.UTF-8", "LANG=C"}} {
 		runTermSeamEnv(r, "c03u", maxLen, "c03term", loc)
 	}
